@@ -23,6 +23,7 @@ mod p12;
 mod p13;
 #[cfg(feature = "crypto")]
 mod p14;
+mod p15;
 mod zlib;
 mod zmodel;
 mod p17;
@@ -131,6 +132,7 @@ fn main() {
         "C13" => p13::run(&mut c),
         #[cfg(feature = "crypto")]
         "C14" => p14::run(&mut c),
+        "C15" => p15::run(&mut c),
         "C17" => p17::run(&mut c),
         "C18" => p18::run(&mut c),
         "C19" => p19::run(&mut c),
